@@ -109,6 +109,8 @@ def canon_run_nosignal(bl, p):
         return 'EXN PE|%s|%s|%s' % (canon.qstr(e.message), canon.qstr(e.s) if isinstance(e.s, str) else '<%s>' % type(e.s).__name__, e.position)
     except NotImplementedError:
         return 'EXN NI'
+    except RecursionError:
+        return 'EXN F|RecursionError|?'
     except Exception as e:
         return 'EXN F|%s|%s' % (type(e).__name__, canon.site_of(e, pkgdir))
 
@@ -126,7 +128,10 @@ def run(ctx):
     with mp.Pool(16) as mpool:
         solo = dict(zip([json.dumps(p, sort_keys=True) for p in pool], mpool.map(fresh_outcome, [list(p) for p in pool])))
     victims = [('parse', {}, 'a <<E | b\nx\nE\nc d'), ('parse', {}, 'a; b\nc $(d) e\n'), ('parse', {}, 'a $(b <<E\nx\nE\n) c\nd'), ('parse', dict(convertpos=True), 'for a; do b; done >x; c'),
-               ('single', {}, 'a "$(b)" `c`'), ('split', {}, 'a "b c" $(d)')]
+               ('single', {}, 'a "$(b)" `c`'), ('split', {}, 'a "b c" $(d)'),
+               ] + ([] if quick else [
+               # deep nests (thorough tier: tracing them is slow): whatever the interpreter's limits make of them alone, they must make of them under concurrency
+               ('parse', {}, 'echo ' + '$(echo ' * 60 + 'x' + ')' * 60), ('parse', {}, 'echo ' + '$(echo ' * 200 + 'x' + ')' * 200)])
     others = [('parse', {}, 'cat <<EOF\nhello\nworld\nEOF\n'), ('parse', {}, 'a\nb'), ('parse', {}, 'x $(y `z`) "w" <(v)'), ('parse', {}, 'if a; then b; fi )')]
     extra_pool = victims + others
     with mp.Pool(16) as mpool:
